@@ -458,6 +458,58 @@ impl<'t, 'd> G<'t, 'd> {
 		self.defs.push(Def { path: parent, kind: AK::Named(full), features: if explicit_ns { vec!["generic-twice", "logical", "generic-owning-named/explicit-namespace"] } else { vec!["generic-twice", "logical", "generic-owning-named"] }, plain: true, has_lifetime: false });
 	}
 
+	/// struct generic over a const only (and optionally a type as well): every instantiation
+	/// is a distinct Rust type and must get a distinct fullname; a parent uses two constants
+	fn gen_const_generic(&mut self, idx: usize) {
+		let name = format!("CG{idx}");
+		let with_type = self.t.bool();
+		let (n1, n2) = (1 + self.t.below(6), 8 + self.t.below(6));
+		let mut text = String::new();
+		text.push_str(Self::derive_line());
+		if with_type {
+			let _ = writeln!(text, "pub(crate) struct {name}<T, const N: usize> {{
+	#[serde(with = \"serde_bytes\")]
+	pub data: [u8; N],
+	pub t: T,
+}}");
+			let _ = writeln!(text, "impl<T: Gen, const N: usize> Gen for {name}<T, N> {{
+	fn gen(t: &mut Tape, d: usize) -> Self {{
+		Self {{ data: <[u8; N] as Gen>::gen(t, d), t: T::gen(t, d + 1) }}
+	}}
+}}
+");
+		} else {
+			let _ = writeln!(text, "pub(crate) struct {name}<const N: usize> {{
+	#[serde(with = \"serde_bytes\")]
+	pub data: [u8; N],
+	pub index: i32,
+}}");
+			let _ = writeln!(text, "impl<const N: usize> Gen for {name}<N> {{
+	fn gen(t: &mut Tape, d: usize) -> Self {{
+		Self {{ data: <[u8; N] as Gen>::gen(t, d), index: <i32 as Gen>::gen(t, d) }}
+	}}
+}}
+");
+		}
+		let inst = |n: usize| if with_type { format!("{name}<i64, {n}>") } else { format!("{name}<{n}>") };
+		let parent = format!("CP{idx}");
+		text.push_str(Self::derive_line());
+		let _ = writeln!(text, "pub(crate) struct {parent} {{
+	pub small: {},
+	pub large: {},
+	pub small_again: Vec<{}>,
+}}", inst(n1), inst(n2), inst(n1));
+		let _ = writeln!(text, "impl Gen for {parent} {{
+	fn gen(t: &mut Tape, d: usize) -> Self {{
+		Self {{ small: Gen::gen(t, d + 1), large: Gen::gen(t, d + 1), small_again: Gen::gen(t, d + 1) }}
+	}}
+}}
+");
+		self.emit(&[], text);
+		let full = format!("{}.{parent}", self.krate);
+		self.defs.push(Def { path: parent, kind: AK::Named(full), features: if with_type { vec!["generic-twice", "const-generic/with-type"] } else { vec!["generic-twice", "const-generic"] }, plain: true, has_lifetime: false });
+	}
+
 	fn gen_borrowing(&mut self, idx: usize) {
 		let name = format!("B{idx}");
 		let mut text = String::new();
@@ -483,6 +535,8 @@ pub fn generate(tape: &[u8], krate: &str, n_types: usize) -> Family {
 	if g.t.bool() {
 		g.gen_generic_owning_named(1);
 	}
+	g.gen_const_generic(0);
+	g.gen_const_generic(1);
 	for idx in 0..n_types {
 		match g.t.below(10) {
 			0..=3 => g.gen_record(idx),
